@@ -436,13 +436,13 @@ CHECKS = [
           rule="steps 0,-1,-3,1.5,2.5 x every start, stop in {None,-7..7} must raise LenaValueError at construction."),
     Check("chunks_box", judge_chunks, cases=cases_chunks, exhaustive=True,
           rule="RunningChunkBy sizes 1..5 x len 0..10 x container kinds x list/iterator input; non-trivial = more than one window."),
-    Check("slice_run_beyond", judge_run, strategy=strat_beyond, quick=1500,
+    Check("slice_run_beyond", judge_run, strategy=strat_beyond, quick=4000,
           thorough=100000,
           rule="Hypothesis outside the box: |index|<=40, len<=60, step<=9, and large cases |index|<=400 (around 256), len 240-420, steps up to 130."),
-    Check("slice_fill_beyond", judge_fill, strategy=strat_fill_beyond, quick=800,
+    Check("slice_fill_beyond", judge_fill, strategy=strat_fill_beyond, quick=2400,
           thorough=50000,
           rule="Hypothesis outside the box for fill_into: index<=40, len<=60, step<=9."),
-    Check("misc_iterators", judge_misc, strategy=strat_misc, quick=600,
+    Check("misc_iterators", judge_misc, strategy=strat_misc, quick=2400,
           thorough=30000,
           rule="Reverse / Chain / CountFrom against reversed / itertools.chain / itertools.count."),
 ]
